@@ -67,27 +67,31 @@ CHECKS = {
         "bin": "c14_chunk",
         "level": "exploration",
         "max_skip_fraction": 0.10,
-        "rule": "one run = one generated workload written fault-free by the real writer, then decoded by the real push decoder under delivery schedules chosen by the simulator: "
-                "one chunk (reference), EVERY single split point (stride n/3000 for long inputs), one byte at a time, 1-6 tape-chosen multi-splits with empty chunks where the protocol makes "
-                "them no-ops, and the same again for a tape-chosen strict prefix of the bytes (invalid input); executions_of_real_code = decoder executions; "
-                "distinct = distinct (decoder, input length, rows, multi-split cut sets)",
+        "rule": "one run = one generated input from the real writer decoded by the real push decoder under delivery schedules chosen by the simulator. CSV / JSON / IPC stream: one chunk (reference), EVERY single "
+                "split point (stride n/3000 for long inputs), one byte at a time, 1-6 tape-chosen multi-splits with empty chunks where the protocol makes them no-ops, and the same again for a tape-chosen strict "
+                "prefix (invalid input). Parquet metadata push decoder: whole file in one range (reference, also compared with the pull reader), exact answers only, the file pre-pushed as two consecutive buffers "
+                "for EVERY split point, a tail prefetch of EVERY length, uniform consecutive buffers of 9 sizes, tape-chosen overlapping / duplicated buffers; for the valid file, a truncated file and a file with one "
+                "flipped footer bit. Flight decoder: the encoder's message sequence and one invalid variant (schema repeated, schema missing, body truncated, message dropped) under EVERY Pending/Ready pattern "
+                "(2^(n+1), capped at 4096 sampled patterns); executions_of_real_code = decoder executions; distinct = distinct (decoder, input length, rows, multi-split cut sets)",
         "required_probes": ["probe.reference_is_error"],
         "components": {
             "real": ["arrow_csv::reader::Decoder (+ RecordDecoder), arrow_json::reader::Decoder (+ TapeDecoder), arrow_ipc::reader::StreamDecoder, driven by the loops documented on each type",
-                     "arrow_csv::Writer, arrow_json writers, arrow_ipc::writer::StreamWriter (produce the inputs); arrow_csv::Reader, arrow_json::Reader, arrow_ipc StreamReader (pull readers compared on valid input)"],
-            "stub": ["the producer that cuts the byte stream into chunks (seeded / enumerated schedule)"],
-            "not_run": ["arrow_avro Decoder (single-object framing needs a schema store; not built)", "ParquetMetaDataPushDecoder", "FlightDataDecoder", "corrupted (bit-flipped) inputs; only truncation is used as invalid input"],
+                     "parquet::file::metadata::ParquetMetaDataPushDecoder + PushBuffers (reference: ParquetMetaDataReader)", "arrow_flight::decode::{FlightRecordBatchStream, FlightDataDecoder} (messages from the real FlightDataEncoder)",
+                     "arrow_csv::Writer, arrow_json writers, arrow_ipc::writer::StreamWriter, parquet ArrowWriter (produce the inputs); arrow_csv::Reader, arrow_json::Reader, arrow_ipc StreamReader (pull readers compared on valid input)"],
+            "stub": ["the producer that cuts the byte stream into chunks / chooses which byte ranges are buffered up front (seeded / enumerated schedule)", "the Flight message stream (Pending pattern enumerated) and the manual executor"],
+            "not_run": ["arrow_avro Decoder (single-object framing; not built)", "bit-flipped inputs for CSV / JSON / IPC (only truncation is used as invalid input there)"],
         },
-        "level_text": "seeded exploration of chunk-delivery schedules (every single split point enumerated per input, byte-at-a-time, random multi-splits with empty chunks) of three push decoders "
-                      "against their own one-chunk result and the pull reader; sampling of inputs, not proof",
-        "design_ref": "DESIGN.md section 4 (C14)",
-        "level_note": "covers the CSV, JSON and IPC stream decoders only; the Avro decoder, the Parquet metadata push decoder and the Flight decoder named by the property are NOT exercised; "
-                      "invalid inputs are truncations only; flush is issued where the documented loop issues it (not at every permitted point); trusted: in-tree simulator, row extraction, validate_full",
+        "level_text": "seeded exploration of delivery schedules (every single split point enumerated per input, byte-at-a-time, random multi-splits with empty chunks; every two-buffer split and every tail prefetch of a Parquet "
+                      "file; every Pending/Ready pattern of a Flight message sequence) of five push decoders against their own one-delivery result and the pull reader; sampling of inputs, not proof",
+        "design_ref": "DESIGN.md section 4 (C14), section 11",
+        "level_note": "covers the CSV, JSON, IPC stream, Parquet metadata and Flight decoders; the Avro decoder named by the property is NOT exercised; flush is issued where the documented loop issues it (not at every "
+                      "permitted point); a damaged input on which the decoder panics even in one delivery is counted and left to C08; trusted: in-tree simulator, row extraction, validate_full",
         "technique": "deterministic simulation: the input transport is a seam owned by the simulator, which enumerates / samples the delivery schedule; reference = single delivery; tape replay + shrinking",
         "assumptions": TRUSTED + [
             "the documented driver loop of each decoder is the protocol; empty chunks are sent mid-stream only to the JSON and IPC decoders (for CSV an empty buffer means end of input)",
             "when both schedules fail, only the prefix relation between the rows emitted before the error is required (an error found at flush discards that batch)",
             "StreamDecoder::with_require_alignment stays at its default (false): with it the outcome legitimately depends on where the caller's chunk happens to be aligned",
+            "Parquet metadata is compared through its Debug rendering (NaN statistics make == false on identical metadata)",
         ],
     },
     "C15": {
